@@ -791,6 +791,26 @@ func LiveLibTasks() []string {
 	return out
 }
 
+// LiveLibTaskIDs returns the hierarchical ids ("parent.k") of the
+// library-spawned tasks that have not exited, in the order of LiveLibTasks.
+//
+//go:norace
+func LiveLibTaskIDs() []string {
+	raceDisable()
+	defer raceEnable()
+	s := active.Load()
+	if s == nil {
+		return nil
+	}
+	var out []string
+	for _, t := range s.tasks {
+		if t.Lib && t.state.Load() != stExited {
+			out = append(out, t.ID)
+		}
+	}
+	return out
+}
+
 // Exited reports whether task id has exited (harness use).
 //
 //go:norace
